@@ -88,7 +88,10 @@ class Interp:
             return a[0][_idx(kw["idx"])]
         if op == "rechunk":
             if self.is_cubed:
-                return a[0].rechunk(tuple(kw["chunks"]) if isinstance(kw["chunks"], list) else kw["chunks"])
+                import cubed
+                ch = tuple(kw["chunks"]) if isinstance(kw["chunks"], list) else kw["chunks"]
+                extra = {k: kw[k] for k in ("min_mem", "allow_irregular") if k in kw}
+                return cubed.rechunk(a[0], ch, **extra) if extra else a[0].rechunk(ch)
             return a[0]
         if op == "astype":
             return xp.astype(a[0], getattr(np, kw["dtype"]) if not self.is_cubed else getattr(xp, kw["dtype"]))
@@ -138,9 +141,26 @@ class Interp:
             import tempfile
             import zarr
             d = tempfile.mkdtemp(prefix="target-", dir=self.spec.work_dir)
-            z = zarr.create_array(d + "/t.zarr", shape=tshape, chunks=tuple(kw["tchunks"]), dtype=a[0].dtype, fill_value=-1)
+            extra = {}
+            if kw.get("tshards"):
+                extra["shards"] = tuple(kw["tshards"])
+            z = zarr.create_array(d + "/t.zarr", shape=tshape, chunks=tuple(kw["tchunks"]), dtype=a[0].dtype, fill_value=-1, **extra)
             self.targets = getattr(self, "targets", []) + [z]
+            unit = tuple(kw.get("tshards") or kw["tchunks"])
+            if region is None:
+                nk = int(np.prod([-(-n // u) for n, u in zip(tshape, unit)]))
+            else:
+                nk = int(np.prod([len(range(r.start // u, -(-r.stop // u))) for r, u in zip(region, unit)]))
+            self.target_info = getattr(self, "target_info", {})
+            self.target_info[__import__("os").path.normpath(d + "/t.zarr")] = dict(nkeys=nk)
             return cubed.to_zarr(a[0], z, region=region, compute=False)
+        if op == "qr":
+            if self.is_cubed:
+                import cubed.array_api.linalg as la
+                q, r = la.qr(a[0])
+                return [q, r]
+            q, r = np.linalg.qr(a[0])
+            return [q, r]
         if op == "map_blocks_neg":
             if self.is_cubed:
                 import cubed
@@ -608,3 +628,127 @@ def structured(rng):
     with np.errstate(all="ignore"):
         nv = Interp(np, False).run(prog)
     return prog, nv
+
+
+# ------------------------------------------------------------------------------------------- storage-layout families
+
+def layouts(rng):
+    """Programs that stress who-writes-which-chunk: multi-stage rechunks under tight budgets (regular and irregular
+    intermediate grids), stores into existing arrays with equal / finer / coarser / coprime chunks, sharded targets,
+    region stores at aligned offsets, multi-output operators.  May carry its own Spec settings (prog['spec'])."""
+    kind = rng.choice(["rechunk", "rechunk", "rechunk", "store", "store", "shard", "region", "unstack"])
+    if kind == "rechunk":
+        # prefer geometries/budgets for which cubed's planner needs several copy operations (cheap to find: no execution)
+        best = None
+        for _ in range(25):
+            cand = _rechunk_candidate(rng)
+            n = _count_copy_ops(cand)
+            if best is None or n > best[0]:
+                best = (n, cand)
+            if n >= 3 or (n >= 2 and rng.random() < 0.5):
+                break
+        prog = best[1]
+        prog["copy_ops"] = best[0]
+        with np.errstate(all="ignore"):
+            nv = Interp(np, False).run(prog)
+        return prog, nv
+    if kind == "rechunk-never":
+        r, c = rng.choice([(60, 60), (120, 120), (96, 40), (50, 70), (120, 36), (37, 53)])
+        sc = [rng.choice([1, 2, 3, 5, 8, 13, r, max(1, r - rng.randint(1, 20))]), rng.choice([1, 2, 4, 7, c, max(1, c - rng.randint(1, 20))])]
+        tc = [rng.choice([1, 3, 4, 6, 24, r, max(1, r - rng.randint(1, 20))]), rng.choice([2, 5, 8, 10, c, max(1, c - rng.randint(1, 20))])]
+        sc = [min(sc[0], r), min(sc[1], c)]
+        tc = [min(tc[0], r), min(tc[1], c)]
+        def nblocks(ch):
+            return -(-r // ch[0]) * -(-c // ch[1])
+        while nblocks(sc) > 300:
+            sc = [min(r, sc[0] * 2), min(c, sc[1] * 2)]
+        while nblocks(tc) > 300:
+            tc = [min(r, tc[0] * 2), min(c, tc[1] * 2)]
+        big = max(sc[0] * sc[1], tc[0] * tc[1]) * 8
+        allowed = int(big * rng.choice([5.5, 6, 8, 12, 30]))
+        inp = dict(shape=[r, c], chunks=sc, dtype="float64", seed=rng.randint(0, 9), pattern="lin", src="asarray")
+        kw = dict(chunks=tc, allow_irregular=rng.random() < 0.5)
+        if rng.random() < 0.3:
+            kw["min_mem"] = rng.choice([8, 64, big // 4])
+        prog = dict(inputs=[inp], steps=[dict(op="rechunk", args=[0], kw=kw)], outs=[1], spec=dict(allowed_mem=allowed, reserved_mem=0),
+                    family="rechunk")
+    elif kind in ("store", "shard"):
+        r, c = rng.choice([(24, 24), (32, 32), (30, 18)])
+        sc = [rng.choice([2, 3, 4, 6, 8, r]), rng.choice([2, 3, 4, 6, c])]
+        tc = [rng.choice([2, 3, 4, 5, 8, 12, r]), rng.choice([2, 3, 4, 7, 9, c])]
+        kw = dict(tchunks=tc)
+        spec = None
+        if kind == "shard":
+            tc = [rng.choice([2, 4]), rng.choice([2, 4])]
+            sh = [tc[0] * rng.choice([1, 2, 4]), tc[1] * rng.choice([2, 4])]
+            sh = [min(sh[0], r), min(sh[1], c)]
+            if r % tc[0] or c % tc[1] or sh[0] % tc[0] or sh[1] % tc[1]:
+                sh = [tc[0] * 2, tc[1] * 2]
+            kw = dict(tchunks=tc, tshards=sh)
+            spec = dict(allowed_mem=int(rng.choice([6000, 12000, 20000, 10 ** 8])), reserved_mem=0)
+        inp = dict(shape=[r, c], chunks=sc, dtype="int64", seed=rng.randint(0, 9), pattern="lin", src="asarray")
+        steps = [dict(op="scalar_add", args=[0], kw=dict(k=1)), dict(op="store_full", args=[1], kw=kw)]
+        prog = dict(inputs=[inp], steps=steps, outs=[2], family=kind)
+        if spec:
+            prog["spec"] = spec
+    elif kind == "region":
+        r, c = rng.choice([(6, 8), (8, 6), (12, 4)])
+        cr, cc = rng.choice([1, 2, 3]), rng.choice([2, 4])
+        inp = dict(shape=[r, c], chunks=[cr, cc], dtype="int64", seed=rng.randint(0, 9), pattern="lin", src="asarray")
+        tr, tcn = r * 2, c + cc * 2
+        r0 = cr * rng.randint(0, r // cr)
+        c0 = cc * rng.randint(0, 2)
+        steps = [dict(op="negative", args=[0]),
+                 dict(op="store_region", args=[1], kw=dict(tshape=[tr, tcn], tchunks=[cr, cc], region=[[r0, r0 + r], [c0, c0 + c]]))]
+        prog = dict(inputs=[inp], steps=steps, outs=[2], family="region")
+    else:
+        c = rng.choice([4, 6, 9])
+        inp = dict(shape=[3, c], chunks=[rng.choice([1, 2, 3]), rng.choice([2, 3])], dtype="int64", seed=1, pattern="lin", src="asarray")
+        steps = [dict(op="unstack", args=[0], kw=dict(axis=0)), dict(op="lincomb", args=[1, 3])]
+        prog = dict(inputs=[inp], steps=steps, outs=[4, 2], family="unstack")
+    with np.errstate(all="ignore"):
+        nv = Interp(np, False).run(prog)
+    return prog, nv
+
+
+def _rechunk_candidate(rng):
+    r, c = rng.choice([(60, 60), (120, 120), (96, 40), (50, 70), (120, 36), (37, 53)])
+    sc = [rng.choice([1, 2, 3, 5, 8, 13, r, max(1, r - rng.randint(1, 20))]), rng.choice([1, 2, 4, 7, c, max(1, c - rng.randint(1, 20))])]
+    tc = [rng.choice([1, 3, 4, 6, 24, r, max(1, r - rng.randint(1, 20))]), rng.choice([2, 5, 8, 10, c, max(1, c - rng.randint(1, 20))])]
+    if rng.random() < 0.6:     # transpose-like: tall-thin -> short-wide (tiny element-wise minimum => several stages)
+        sc = [rng.randint(max(1, r // 2), r), rng.choice([1, 2, 3, 4])]
+        tc = [rng.choice([1, 2, 3, 4]), rng.randint(max(1, c // 2), c)]
+        if rng.random() < 0.5:
+            sc, tc = tc, sc
+    sc = [min(sc[0], r), min(sc[1], c)]
+    tc = [min(tc[0], r), min(tc[1], c)]
+
+    def nblocks(ch):
+        return -(-r // ch[0]) * -(-c // ch[1])
+    while nblocks(sc) > 300:
+        sc = [min(r, sc[0] * 2), min(c, sc[1] * 2)]
+    while nblocks(tc) > 300:
+        tc = [min(r, tc[0] * 2), min(c, tc[1] * 2)]
+    big = max(sc[0] * sc[1], tc[0] * tc[1]) * 8
+    allowed = int(big * rng.choice([5.5, 6, 8, 12, 30]))
+    inp = dict(shape=[r, c], chunks=sc, dtype="float64", seed=rng.randint(0, 9), pattern="lin", src="asarray")
+    kw = dict(chunks=tc, allow_irregular=rng.random() < 0.5)
+    if rng.random() < 0.3:
+        kw["min_mem"] = rng.choice([8, 64, big // 4])
+    return dict(inputs=[inp], steps=[dict(op="rechunk", args=[0], kw=kw)], outs=[1], spec=dict(allowed_mem=allowed, reserved_mem=0),
+                family="rechunk")
+
+
+def _count_copy_ops(prog):
+    import tempfile
+    import cubed
+    import cubed.array_api as xp
+    from cubed.core.ops import _rechunk_plan
+    inp = prog["inputs"][0]
+    kw = prog["steps"][0]["kw"]
+    try:
+        spec = cubed.Spec(work_dir=tempfile.gettempdir(), **prog["spec"])
+        x = xp.empty(tuple(inp["shape"]), dtype=xp.float64, chunks=tuple(inp["chunks"]), spec=spec)
+        return len(list(_rechunk_plan(x, tuple(kw["chunks"]), min_mem=kw.get("min_mem"), allow_irregular=kw.get("allow_irregular", True))))
+    except Exception:
+        return 0
